@@ -372,6 +372,67 @@ pub fn play_confined(g: &mut Game, rng: &mut Rng, region: &[usize], max_actions:
     }
 }
 
+/// Setup, exhaustively over COUNT VECTORS (how many pieces of each type the side to place has put
+/// down): every count vector is visited once, and every placement offered there is observed - the
+/// same reduction as the VIEW of spec/mc/MC_setup.tla.  Gold's vectors are explored first; Silver's
+/// are explored behind the first completed Gold army.
+pub fn setup_all(g: &mut Game) {
+    use std::collections::HashSet;
+    fn key(gs: &GameState) -> (bool, [u32; 6]) {
+        let pb = gs.piece_board();
+        let gold = gs.is_p1_turn_to_move();
+        let mut k = [0u32; 6];
+        for t in 1..=6u8 {
+            k[(t - 1) as usize] = pb.bits_for_piece(num_type(t), gold).count_ones();
+        }
+        (gold, k)
+    }
+    fn dfs(g: &mut Game, seen: &mut HashSet<(bool, [u32; 6])>) {
+        if g.dead {
+            return;
+        }
+        let gs = g.top().clone();
+        if gs.is_play_phase() {
+            return;
+        }
+        let off = match guarded(|| gs.valid_actions()) {
+            Ok(x) => x,
+            Err(p) => {
+                g.tr.panic_event(&p);
+                g.dead = true;
+                return;
+            }
+        };
+        for a in off.iter() {
+            let child = match apply(&gs, a) {
+                Ok(c) => c,
+                Err(p) => {
+                    g.tr.panic_event(&p);
+                    g.dead = true;
+                    return;
+                }
+            };
+            let fresh = !child.is_play_phase() && seen.insert(key(&child));
+            if fresh {
+                if !g.descend(a) {
+                    return;
+                }
+                dfs(g, seen);
+                if g.dead {
+                    return;
+                }
+                g.ascend();
+            } else if !g.probe(a) {
+                return;
+            }
+        }
+    }
+    g.reset(GameState::initial(), "initial", "setup-all");
+    let mut seen = HashSet::new();
+    seen.insert(key(g.top()));
+    dfs(g, &mut seen);
+}
+
 /// complete random setup through the real placement phase
 pub fn setup_random(g: &mut Game, rng: &mut Rng, style: usize) {
     g.reset(GameState::initial(), "initial", "setup");
